@@ -22,7 +22,11 @@ LEVEL = "exploration"
 EXHAUSTIVE = True
 RULE = ("a case = one (data type, labels, rows, namespace configuration, construction route, target format variant) "
         "round trip write -> read-as-same-type, or one data set (1-3 namespaces x content pattern x namespace-label "
-        "pattern x add order x schema x suppress_block_titles) round trip, or one taxon label in a 2-row matrix; "
+        "pattern x add order x schema x suppress_block_titles) round trip, or one data set of every sequence of 2-3 blocks "
+        "over {DNA with character subsets from new_character_subset / concatenate / a parsed SETS block, continuous with "
+        "subsets, continuous with negative and exponent values, DNA with gaps, tree list with negative and exponent edge "
+        "lengths} containing a subset carrier x 3 namespace assignments x {NEXUS titles None/False, NeXML} incl. "
+        "matrix_offset reads, or one taxon label in a 2-row matrix; "
         "matrices: every symbol of the type's symbol set at 1x1, all ordered tuples at 1x2, 2x1, 2x2-diagonal and (per tier) "
         "1x3, 3x1, 1x4, cyclic fills of every r x c up to the tier bound at every alphabet offset, ragged rows (FASTA/NeXML), "
         "wrap-boundary lengths, multistate tokens, namespaces with an unsequenced member; non-trivial = "
@@ -35,6 +39,7 @@ ASSUMPTIONS = [
     "a namespace member without a sequence is not a row: it may or may not come back, an empty row with its label is tolerated",
     "PHYLIP strict labels are at most 10 characters; relaxed labels contain no blank unless the reader is given multispace_delimiter=True; FASTA/PHYLIP labels are taken verbatim (no quoting exists)",
     "data sets: the statement demands attachment and content, not the namespace's own title, so namespace / block labels are not compared",
+    "character subsets (labels + index sets) and tree edge lengths count as data-set content ('converting a data set never changes its content'); <Type>CharacterMatrix.get(matrix_offset=j) is compared with the j-th matrix only for sources with one TAXA block (the call reads everything into one namespace; several-namespace sources are counted as observations)",
     "label layer = the C02 admissibility rule (non-empty, no leading/trailing whitespace, distinct up to case) in NEXUS and NeXML only",
 ]
 MANIFEST = {
@@ -748,6 +753,9 @@ def chunks(tier):
         for i in range(len(TRIPLE_CHARS)):
             for j in range(len(TRIPLE_CHARS)):
                 out.append({"kind": "labels3", "i": i, "j": j, "tier": tier})
+    nseq = len(dsx_sequences())
+    for lo in range(0, nseq, 12):
+        out.append({"kind": "datasets-subsets", "lo": lo, "hi": min(nseq, lo + 12), "tier": tier})
     for k in b["dataset_namespaces"]:
         pats = list(itertools.product(range(len(DS_PATTERNS)), repeat=k))
         step = 5
@@ -999,13 +1007,96 @@ def build_dataset(nss, items):
         tns = lib_ns[it["ns"]]
         if it["what"] == "trees":
             tl = ds.new_tree_list(taxon_namespace=tns)
-            for nw in it["newick"]:
-                tl.append(_tree_from_newick(nw, tns))
+            for k, nw in enumerate(it["newick"]):
+                tree = _tree_from_newick(nw, tns)
+                if it.get("lengths"):
+                    _set_lengths(tree, it["lengths"][k])
+                tl.append(tree)
         else:
-            d = collections.OrderedDict((l, _value(it["dtype"], r)) for l, r in zip(it["labels"], it["rows"]))
-            m = _cls(it["dtype"]).from_dict(d, taxon_namespace=tns, case_sensitive_taxon_labels=True)
-            ds.add_char_matrix(m)
+            ds.add_char_matrix(_build_ds_matrix(it, tns))
     return ds
+
+
+def _build_ds_matrix(it, tns):
+    cls = _cls(it["dtype"])
+
+    def from_cols(lo, hi):
+        d = collections.OrderedDict((l, _value(it["dtype"], r[lo:hi])) for l, r in zip(it["labels"], it["rows"]))
+        return cls.from_dict(d, taxon_namespace=tns, case_sensitive_taxon_labels=True)
+    origin = it.get("origin", "plain")
+    ncols = len(it["rows"][0])
+    if origin == "plain":
+        return from_cols(0, ncols)
+    if origin == "new":
+        m = from_cols(0, ncols)
+        for label, idx in it["subsets"]:
+            m.new_character_subset(label=label, character_indices=list(idx))
+        return m
+    if origin == "concat":          # the subsets are the (contiguous) parts, named locus000, locus001, ...
+        return cls.concatenate([from_cols(idx[0], idx[-1] + 1) for _, idx in it["subsets"]])
+    if origin == "parsed":          # harness-written NEXUS with a SETS block, read into the data set's namespace
+        return cls.get(data=doc_nexus_sets(it["dtype"], it["labels"], it["rows"], it["subsets"]), schema="nexus",
+                       taxon_namespace=tns)
+    raise ValueError(origin)
+
+
+def _ranges(idx):
+    """1-based NEXUS position list of a sorted 0-based index list."""
+    out, i = [], 0
+    while i < len(idx):
+        j = i
+        while j + 1 < len(idx) and idx[j + 1] == idx[j] + 1:
+            j += 1
+        out.append("%d" % (idx[i] + 1) if i == j else "%d-%d" % (idx[i] + 1, idx[j] + 1))
+        i = j + 1
+    return " ".join(out)
+
+
+def doc_nexus_sets(dtype, labels, rows, subsets):
+    doc = doc_nexus(dtype, labels, rows, "sequential")
+    lines = ["BEGIN SETS;"]
+    for label, idx in subsets:
+        lines.append("  CHARSET %s = %s;" % (("'%s'" % label) if "_" in label else label, _ranges(idx)))
+    lines += ["END;", ""]
+    return doc + "\n".join(lines)
+
+
+def _set_lengths(tree, spec):
+    """spec = {"leaf": {label: length}, "internal": [lengths of non-root internal edges in preorder]}"""
+    internal = list(spec["internal"])
+    stack = [tree._seed_node]
+    while stack:
+        nd = stack.pop()
+        stack.extend(reversed(nd._child_nodes))
+        if nd is tree._seed_node:
+            continue
+        if nd._child_nodes:
+            nd.edge.length = internal.pop(0)
+        else:
+            nd.edge.length = spec["leaf"][nd.taxon._label]
+
+
+def _observe_lengths(tree):
+    leaf, internal = {}, []
+    stack = [tree._seed_node]
+    while stack:
+        nd = stack.pop()
+        stack.extend(reversed(nd._child_nodes))
+        if nd is tree._seed_node:
+            continue
+        if nd._child_nodes:
+            internal.append(nd.edge.length)
+        else:
+            leaf[nd.taxon._label if nd.taxon is not None else None] = nd.edge.length
+    return {"leaf": leaf, "internal": sorted(internal, key=repr)}
+
+
+def observe_subsets(m):
+    out = []
+    for key in m.character_subsets:
+        cs = m.character_subsets[key]
+        out.append([cs.label, sorted(cs.character_indices)])
+    return sorted(out)
 
 
 def _tree_from_newick(nw, tns):
@@ -1045,10 +1136,20 @@ def _tree_from_newick(nw, tns):
 def check_dataset(case, ctx):
     """case["schema"] is one schema or a chain "nexus>nexml": the data set is converted step by step and
     compared with its specification after every step; the first failing step is reported."""
-    nss, items = ds_spec(case["patterns"], case["nslabels"], case["order"])
+    if case["kind"] == "dsx":
+        nss, items = dsx_spec(case["items"], case["nsassign"])
+    else:
+        nss, items = ds_spec(case["patterns"], case["nslabels"], case["order"])
     with warnings.catch_warnings():
         warnings.simplefilter("ignore")
-        ds = build_dataset(nss, items)
+        try:
+            ds = build_dataset(nss, items)
+        except Exception as e:
+            ctx.violation("dataset|build-raises|%s" % where(e), "building the data set raised %r" % (e,), case)
+            return "build-raises"
+        built = _compare_dataset(ds, nss, items, "api", "dataset|as-built", case, ctx)
+        if built != "ok":
+            return built
         prev = None
         for schema in case["schema"].split(">"):
             kw = {}
@@ -1067,14 +1168,55 @@ def check_dataset(case, ctx):
                 ds = dendropy.DataSet.get(data=text, schema=schema)
             except Exception as e:
                 many = "several-namespaces" if len(nss) > 1 else "one-namespace"
+                if where(e).endswith("@_get_char_matrix"):
+                    # a SETS block that cannot be tied to its matrix: independent of titles and namespaces
+                    ctx.violation("dataset|%s|sets-block|read-raises|%s" % (schema, where(e)),
+                                  "reading the data set back raised %r; text:\n%s" % (e, text[:2500]), case)
+                    return "read-raises"
                 ctx.violation("%s|read-raises|%s|%s" % (tag, where(e), many),
                               "reading the data set back raised %r; text:\n%s" % (e, text[:2500]), case)
                 return "read-raises"
             out = _compare_dataset(ds, nss, items, schema, tag, case, ctx)
             if out != "ok":
                 return out
+            if case["kind"] == "dsx":
+                out = _check_matrix_offsets(text, schema, nss, items, tag, case, ctx)
+                if out != "ok":
+                    return out
             prev = schema
     return "ok"
+
+
+def _check_matrix_offsets(text, schema, nss, items, tag, case, ctx):
+    """<Type>CharacterMatrix.get(matrix_offset=j) on the same text = the j-th matrix of the data set."""
+    bad = 0
+    for j, it in enumerate(x for x in items if x["what"] == "matrix"):
+        try:
+            m = _cls(it["dtype"]).get(data=text, schema=schema, matrix_offset=j)
+        except Exception as e:
+            if len(nss) > 1:
+                # <Type>CharacterMatrix.get reads the whole source into ONE namespace; a source with several
+                # TAXA blocks is outside that call's domain (observed and counted, not judged)
+                ctx.count("observed|matrix.get-on-source-with-several-namespaces-raises")
+                continue
+            ctx.violation("%s|matrix_offset|read-raises|%s" % (tag, where(e)),
+                          "%s.get(matrix_offset=%d) raised %r; text:\n%s" % (TYPES[it["dtype"]]["cls"], j, e, text[:2500]), case)
+            bad += 1
+            continue
+        exp = (list(it["labels"]), [[canonical(it["dtype"], x) for x in r] for r in it["rows"]])
+        d = diff_rows(it["dtype"], exp, observe_matrix(m))
+        if d is not None:
+            ctx.violation("%s|matrix_offset|%s" % (tag, d[0]), "matrix_offset=%d (%s): %s" % (j, it["dtype"], d[1]), case)
+            bad += 1
+        want = sorted([l, sorted(i)] for l, i in it.get("subsets", []))
+        if observe_subsets(m) != want:
+            if want and not observe_subsets(m):
+                ctx.count("observed|character-subsets-not-carried-by-format")   # see _compare_dataset
+            else:
+                ctx.violation("%s|matrix_offset|character-subsets" % tag, "matrix_offset=%d: character subsets %r, written %r" % (
+                    j, observe_subsets(m), want), case)
+                bad += 1
+    return "ok" if not bad else "differs"
 
 
 def _compare_dataset(ds2, nss, items, schema, tag, case, ctx):
@@ -1114,6 +1256,13 @@ def _compare_dataset(ds2, nss, items, schema, tag, case, ctx):
             if sorted(got, key=str) != leaves or foreign or tree.taxon_namespace is not tl.taxon_namespace:
                 ctx.violation("%s|tree-taxa" % tag, "tree list %d: leaves %r (foreign taxon: %s), written %r" % (j, got, foreign, leaves), case)
                 bad += 1
+        if it.get("lengths"):
+            for tree, spec in zip(tl._trees, it["lengths"]):
+                want_l = {"leaf": dict(spec["leaf"]), "internal": sorted(spec["internal"], key=repr)}
+                got_l = _observe_lengths(tree)
+                if got_l != want_l:
+                    ctx.violation("%s|tree-edge-lengths" % tag, "tree list %d: edge lengths %r, written %r" % (j, got_l, want_l), case)
+                    bad += 1
     for j, (it, m) in enumerate(zip(want_mats, ds2.char_matrices)):
         if m.data_type != it["dtype"]:
             ctx.violation("%s|matrix-order-or-type" % tag, "matrix %d is %r, written %r" % (j, m.data_type, it["dtype"]), case)
@@ -1133,6 +1282,18 @@ def _compare_dataset(ds2, nss, items, schema, tag, case, ctx):
             # same defect classes as the single-matrix layer: same signatures
             ctx.violation("%s|%s" % (schema, d[0]), "data set matrix %d (%s): %s" % (j, it["dtype"], d[1]), case)
             bad += 1
+        want = sorted([l, sorted(i)] for l, i in it.get("subsets", []))
+        if observe_subsets(m) != want:
+            lost = "lost" if want and not observe_subsets(m) else "differ"
+            if lost == "lost":
+                # The statement lists taxa, order and states; a target format that does not carry
+                # character subsets at all (the NeXML writer) is a feature gap, not a changed cell:
+                # counted, not deciding.  Subsets that come back DIFFERENT are deciding.
+                ctx.count("observed|%s|character-subsets-not-carried-by-format" % schema)
+            else:
+                ctx.violation("%s|character-subsets-%s" % (tag, lost), "matrix %d (%s): character subsets %r, written %r" % (
+                    j, it["dtype"], observe_subsets(m), want), case)
+                bad += 1
     return "ok" if not bad else "differs"
 
 
@@ -1141,6 +1302,69 @@ def _ns_index(ds, tns):
         if t is tns:
             return i
     return None
+
+
+# -- data sets whose matrices carry character subsets, next to blocks full of '-' and exponents -------------
+
+DSX_KINDS = ["Dsub-new", "Dsub-concat", "Dsub-parsed", "Csub-new", "C", "G", "T"]
+DSX_SUB = set(k for k in DSX_KINDS if "sub" in k)
+DSX_VALUES = [-1.25, 2e-5, 1e10, -3.0]
+DSX_NSASSIGN = ["one", "alternate", "last-other"]
+DSX_MODES = [("nexus", None), ("nexus", False), ("nexml", "n/a")]
+
+
+def dsx_spec(kinds, nsassign):
+    k = len(kinds)
+    if nsassign == "one":
+        assign = [0] * k
+    elif nsassign == "alternate":
+        assign = [i % 2 for i in range(k)]
+    else:
+        assign = [0] * (k - 1) + [1]
+    nss = [{"label": None, "taxa": DS_LABELS[i]} for i in range(max(assign) + 1)]
+    items = []
+    for n, (kind, i) in enumerate(zip(kinds, assign)):
+        labels = DS_LABELS[i]
+        if kind == "T":
+            x, y, z = labels[n % 3], labels[(n + 1) % 3], labels[(n + 2) % 3]
+            items.append({"what": "trees", "ns": i, "newick": ["((%s,%s),%s);" % (x, y, z)], "leafsets": [sorted(labels)],
+                          "lengths": [{"leaf": {x: -1.25, y: 2e-5, z: 3.5}, "internal": [1e22]}]})
+        elif kind == "C":
+            items.append({"what": "matrix", "ns": i, "dtype": "continuous", "labels": labels,
+                          "rows": cyclic("continuous", 3, 2, n, DSX_VALUES)})
+        elif kind == "G":
+            items.append({"what": "matrix", "ns": i, "dtype": "dna", "labels": labels,
+                          "rows": cyclic("dna", 3, 3, n, ["A", "-", "C", "-", "G", "T", "-"])})
+        elif kind == "Csub-new":
+            items.append({"what": "matrix", "ns": i, "dtype": "continuous", "labels": labels, "origin": "new",
+                          "rows": cyclic("continuous", 3, 3, n, DSX_VALUES), "subsets": [["first", [0, 1]], ["last_one", [2]]]})
+        else:
+            origin = kind.split("-")[1]
+            if origin == "concat":
+                subsets = [["locus000", [0, 1]], ["locus001", [2, 3]]]
+            else:
+                subsets = [["first", [0, 1]], ["odd_ones", [0, 2, 3]], ["one", [1]]]
+            items.append({"what": "matrix", "ns": i, "dtype": "dna", "labels": labels, "origin": origin,
+                          "rows": cyclic("dna", 3, 4, n, ["A", "C", "G", "T", "N"]), "subsets": subsets})
+    return nss, items
+
+
+def dsx_sequences():
+    out = []
+    for k in (2, 3):
+        for seq in itertools.product(DSX_KINDS, repeat=k):
+            if any(x in DSX_SUB for x in seq):
+                out.append(list(seq))
+    return out
+
+
+def gen_dsx(chunk):
+    for seq in dsx_sequences()[chunk["lo"]:chunk["hi"]]:
+        for nsassign in DSX_NSASSIGN:
+            if nsassign == "last-other" and len(seq) == 2:
+                continue          # same as "alternate"
+            for schema, sbt in DSX_MODES:
+                yield {"kind": "dsx", "items": seq, "nsassign": nsassign, "schema": schema, "suppress_block_titles": sbt}
 
 
 def gen_datasets(chunk):
@@ -1176,6 +1400,16 @@ def run_chunk(chunk, ctx):
             if case["patterns"] == [5, 3, 4][:len(case["patterns"])] and case["nslabels"] == "same":
                 ctx.sample({"dataset": case}, 2)
         return None
+    if kind == "datasets-subsets":
+        for case in gen_dsx(chunk):
+            ctx.case(("dsx", tuple(case["items"]), case["nsassign"], case["schema"], str(case["suppress_block_titles"])))
+            out = check_dataset(case, ctx)
+            ctx.count("datasets_with_subsets")
+            if out != "ok":
+                ctx.count("datasets_with_subsets_failed")
+            if case["items"] == ["Dsub-new", "C", "T"] and case["nsassign"] == "one":
+                ctx.sample({"dataset_with_subsets": case}, 1)
+        return None
     if kind == "fasta-continuous-probe":
         # FASTA has no value separator: counted as an observation, never a verdict (see ASSUMPTIONS)
         try:
@@ -1196,7 +1430,7 @@ def run_chunk(chunk, ctx):
 
 
 def replay(case, ctx):
-    if case.get("kind") == "ds":
+    if case.get("kind") in ("ds", "dsx"):
         check_dataset(case, ctx)
     else:
         check_rt(case, ctx)
